@@ -97,6 +97,8 @@ pub fn families() -> Vec<Value> {
     v.push(big("lockfree", json!({"preset": 4, "msize": 1 << 16, "raii": 0}), "exhaust", 300, 264, 288, 0));                // 64 KiB region: the tail of the region
     v.push(big("lockfree", json!({"preset": 5, "msize": 4096, "raii": 0}), "exhaust", 40, 100, 104, 1));
     v.push(big("lockfree", json!({"preset": 6, "msize": 1 << 20, "raii": 1}), "turnover", 3000, 1032, 1152, 0));
+    v.push(json!({"cell": "lockfree", "preset": 0, "msize": (1u64 << 32) + 65536, "raii": 0,
+                  "ops": [[0, 1 << 30, 1], [0, 1 << 30, 1], [0, 1 << 30, 1], [0, (1 << 30) - 4096, 1], [0, 4000, 1], [0, 64, 1], [0, 64, 1], [0, 8200, 1], [1, 0], [0, 1 << 30, 1], [0, 16, 1]]}));
     v.push(json!({"cell": "lockfree", "preset": 4, "msize": 4096, "raii": 0, "ops": [[0, 24, 1], [0, 24, 1], [2, 3, 100], [2, 4, 16384], [1, 0], [0, 24, 1], [2, 3, 1]]}));
     v.push(json!({"cell": "lockfree", "preset": 7, "msize": 65536, "raii": 0, "ops": [[6, 9, 64, 0], [6, 9, 8200, 0], [6, 10, 100, 4096], [1, 3], [6, 12, 100, 4096], [6, 9, 18446744073709551615u64, 0], [0, 64, 1]]}));
     // ---- FixedCapacityMemoryPool: the five presets to exhaustion and back (1000 .. 10000 blocks), class growth boundaries 128 / 1024
@@ -148,6 +150,7 @@ pub fn families() -> Vec<Value> {
         let (chunk, align, lcache) = ([24u64, 100, 1024, 4096, 64, 1][k], [8u64, 64, 16, 4096, 1, 32][k], [2u64, 0, 64, 1, 2, 0][k]);
         v.push(json!({"cell": "secure", "preset": preset, "chunk": chunk, "maxchunks": 4, "align": align, "lcache": lcache, "flags": k as u64 % 4, "opts": opts, "ops": ops}));
     } }
+    v.push(json!({"cell": "secure", "preset": 4, "flags": 0, "opts": 0, "ops": [[0, 8, 1], [0, 8, 1], [1, 0]]}));                 // SecurePoolConfig::default(): refused
     v.push(big("secure", json!({"preset": 1, "flags": 2, "opts": 0}), "fill_free_refill", 70, 8, 8, 0));     // local cache of 64, then the shared stack
     v.push(big("secure", json!({"preset": 2, "flags": 0, "opts": 4096}), "fill_free_refill", 35, 8, 8, 2));
     // ---- MemoryPool presets (queue bounds 100 / 50 / 10), PooledBuffer across 1 KiB / 64 KiB / 1 MiB, PooledVec per element type
